@@ -687,3 +687,7 @@ def run(chk, facts, tier, only=None):
         if only and only != rid:
             continue
         chk.run_rule(rid, desc, fn)
+    if only is None:
+        import c14
+        # "returns a result": the walks of the type checker over named types stop (visited sets), so check_prog does not recurse forever
+        chk._c.include(c14, "C14.R2", "C13.R7", facts) if hasattr(chk, "_c") else chk.include(c14, "C14.R2", "C13.R7", facts)
